@@ -64,7 +64,7 @@ func ruleO1(c *an.Ctx) {
 		if fn == nil {
 			continue
 		}
-		got := callerNames(c.P, fn)
+		got := effectiveCallers(c.P, fn, e.callers)
 		ok, extra := subset(got, e.callers)
 		c.Check("O1", "callers("+e.fn+")", fn.Pos(), ok && len(got) > 0,
 			fmt.Sprintf("callers must be within %v; found %v (unexpected: %q)", e.callers, got, extra))
@@ -185,31 +185,52 @@ func ruleO2(c *an.Ctx) {
 					"Node.state must only be assigned the result of Node.getState()")
 			}
 		}
-		c.Floor("O3", "stores to Node.state", n, 2)
+		c.Floor("O3", "stores to Node.state", n, 1)
 	}
 
 	// Fork.getState: chunks_complete only when every chunk was seen Complete
 	forkGetState := c.NeedFunc(pkgCore, "(*Fork).getState")
 	chunkGetState := c.NeedFunc(pkgCore, "(*Chunk).getState")
 	if forkGetState != nil && chunkGetState != nil {
-		var rets []*ssa.Return
-		an.Instrs(forkGetState, func(in ssa.Instruction) {
-			if r, ok := in.(*ssa.Return); ok && len(r.Results) == 1 && isPrefixed(p, an.RetVal(r, 0), "Complete", "ChunksPrefix") {
-				rets = append(rets, r)
+		// the aggregation may live in a private helper of Fork.getState: look in the whole family, at
+		// every returned value (a helper may return the state as one of several results)
+		nRets, nCalls := 0, 0
+		for _, fn := range familyOf(p, forkGetState, 2) {
+			var rets []*ssa.Return
+			an.Instrs(fn, func(in ssa.Instruction) {
+				r, ok := in.(*ssa.Return)
+				if !ok {
+					return
+				}
+				for i := range r.Results {
+					if isPrefixed(p, an.RetVal(r, i), "Complete", "ChunksPrefix") {
+						rets = append(rets, r)
+						break
+					}
+				}
+			})
+			if len(rets) == 0 {
+				continue
 			}
-		})
-		c.Floor("O2", "return Complete.Prefixed(ChunksPrefix) in Fork.getState", len(rets), 1)
-		calls := callsTo(forkGetState, chunkGetState)
-		c.Floor("O2", "chunk.getState() calls in Fork.getState", len(calls), 1)
-		for _, r := range rets {
-			for _, s := range calls {
-				ok, why := allFlag(forkGetState, r, s.(*ssa.Call), func(rel an.Rel) bool {
-					return relEq(rel, func(v ssa.Value) bool { return v == s.Value() }, func(v ssa.Value) bool { return isState(p, v, "Complete") })
-				})
-				c.Check("O2", "all-chunks-complete(return chunks_complete)@(*Fork).getState", r.Pos(), ok,
-					"chunks_complete may be returned only if every chunk's state compared equal to Complete: "+why)
+			nRets += len(rets)
+			calls := callsTo(fn, chunkGetState)
+			nCalls += len(calls)
+			if len(calls) == 0 {
+				c.Fail("O2", "all-chunks-complete(return chunks_complete)@"+an.FnName(fn), rets[0].Pos(), "chunks_complete is returned by a function that does not inspect the chunks' states")
+			}
+			for _, r := range rets {
+				for _, s := range calls {
+					s := s
+					ok, why := allFlag(fn, r, s.(*ssa.Call), func(rel an.Rel) bool {
+						return relEq(rel, func(v ssa.Value) bool { return v == s.Value() }, func(v ssa.Value) bool { return isState(p, v, "Complete") })
+					})
+					c.Check("O2", "all-chunks-complete(return chunks_complete)@"+an.FnName(fn), r.Pos(), ok,
+						"chunks_complete may be returned only if every chunk's state compared equal to Complete: "+why)
+				}
 			}
 		}
+		c.Floor("O2", "return Complete.Prefixed(ChunksPrefix) in Fork.getState or its private helpers", nRets, 1)
+		c.Floor("O2", "chunk.getState() calls next to them", nCalls, 1)
 	}
 }
 
@@ -442,38 +463,37 @@ func ruleO3(c *an.Ctx) {
 		}
 	})
 	c.Floor("O3", "return Running in Node.getState", len(rets), 1)
-	// the range over self.prenodes
-	var rng *ssa.Range
-	an.Instrs(fn, func(in ssa.Instruction) {
-		if r, ok := in.(*ssa.Range); ok && an.LoadsField(r.X, prenodes) {
-			rng = r
+	// prenodeLoopOK: in function g, instruction r (a return) is reached only through a loop over all
+	// prenodes, and a prenode that is neither Complete nor Disabled keeps control away from r.
+	prenodeLoopOK := func(g *ssa.Function, r ssa.Instruction, what string) bool {
+		var rng *ssa.Range
+		an.Instrs(g, func(in ssa.Instruction) {
+			if x, ok := in.(*ssa.Range); ok && an.LoadsField(x.X, prenodes) {
+				rng = x
+			}
+		})
+		if rng == nil {
+			return false
 		}
-	})
-	if rng == nil {
-		c.Undecided("O3", "range(self.prenodes)@(*Node).getState", fn.Pos(), "no range over Node.prenodes found")
-		return
-	}
-	// per-prenode state call: (*Node).getState on a value derived from the range
-	var S *ssa.Call
-	t := an.NewTaint(0, nil)
-	t.Add(rng)
-	t.Run()
-	an.Instrs(fn, func(in ssa.Instruction) {
-		if call, ok := in.(*ssa.Call); ok && call.Call.StaticCallee() == fn && len(call.Call.Args) > 0 && t.Has(call.Call.Args[0]) {
-			S = call
+		var S *ssa.Call
+		t := an.NewTaint(0, nil)
+		t.Add(rng)
+		t.Run()
+		an.Instrs(g, func(in ssa.Instruction) {
+			if call, ok := in.(*ssa.Call); ok && call.Call.StaticCallee() == fn && len(call.Call.Args) > 0 && t.Has(call.Call.Args[0]) {
+				S = call
+			}
+		})
+		if S == nil {
+			c.Undecided("O3", "prenode.getState()@"+an.FnName(g), g.Pos(), "no state query of the ranged prenode found")
+			return true
 		}
-	})
-	if S == nil {
-		c.Undecided("O3", "prenode.getState()@(*Node).getState", fn.Pos(), "no state query of the ranged prenode found")
-		return
-	}
-	for _, r := range rets {
-		ok, w := an.MustPass(fn, nil, func(in ssa.Instruction) bool { return in == ssa.Instruction(r) },
+		ok, w := an.MustPass(g, nil, func(in ssa.Instruction) bool { return in == r },
 			func(in ssa.Instruction) bool { return in == ssa.Instruction(rng) })
-		c.Check("O3", "running-only-after-prenode-loop@(*Node).getState", r.Pos(), ok,
-			"return Running must be reached only through the loop over all prenodes; "+c.WitnessString(w))
-		w = an.Query{Fn: fn, After: S,
-			Target: func(in ssa.Instruction) bool { return in == ssa.Instruction(S) || in == ssa.Instruction(r) },
+		c.Check("O3", "running-only-after-prenode-loop@"+an.FnName(g), r.Pos(), ok,
+			what+" must be reached only through the loop over all prenodes; "+c.WitnessString(w))
+		w = an.Query{Fn: g, After: S,
+			Target: func(in ssa.Instruction) bool { return in == ssa.Instruction(S) || in == r },
 			BarrierEdge: func(from, to *ssa.BasicBlock) bool {
 				cnd, tr, ok := an.EdgeCond(from, to)
 				if !ok {
@@ -484,8 +504,59 @@ func ruleO3(c *an.Ctx) {
 				return relEq(rel, isS, func(v ssa.Value) bool { return isState(p, v, "Complete") }) ||
 					relEq(rel, isS, func(v ssa.Value) bool { return isState(p, v, "DisabledState") })
 			}}.Find()
-		c.Check("O3", "waiting-unless-prenode-complete-or-disabled@(*Node).getState", S.Pos(), w == nil,
+		c.Check("O3", "waiting-unless-prenode-complete-or-disabled@"+an.FnName(g), S.Pos(), w == nil,
 			"a prenode whose state is neither Complete nor DisabledState must keep the node from Running; "+c.WitnessString(w))
+		return true
+	}
+	fam := familyOf(p, fn, 2)
+	inFam := map[*ssa.Function]bool{}
+	for _, f := range fam {
+		inFam[f] = true
+	}
+	for _, r := range rets {
+		if prenodeLoopOK(fn, r, "return Running") {
+			continue
+		}
+		// the loop may live in a private boolean helper: return Running is then dominated by one
+		// outcome of that helper, and the helper returns that outcome only after the loop
+		handled := false
+		for _, b := range fn.Blocks {
+			for _, sc := range b.Succs {
+				cnd, truth, ok := an.EdgeCond(b, sc)
+				if !ok {
+					continue
+				}
+				rel := an.Normalize(cnd, truth)
+				call, isCall := rel.X.(*ssa.Call)
+				if rel.Op != token.ILLEGAL || !isCall || !inFam[call.Call.StaticCallee()] || call.Call.StaticCallee() == fn {
+					continue
+				}
+				from, to := b, sc
+				if w := (an.Query{Fn: fn, Target: func(in ssa.Instruction) bool { return in == ssa.Instruction(r) },
+					BarrierEdge: func(f, t *ssa.BasicBlock) bool { return f == from && t == to }}).Find(); w != nil {
+					continue // this edge does not guard the return
+				}
+				h := call.Call.StaticCallee()
+				an.Instrs(h, func(in ssa.Instruction) {
+					hr, ok := in.(*ssa.Return)
+					if !ok || len(hr.Results) != 1 {
+						return
+					}
+					cv, isC := an.ConstVal(an.RetVal(hr, 0))
+					if isC && cv.String() == fmt.Sprint(rel.Truth) {
+						if prenodeLoopOK(h, hr, fmt.Sprintf("return %v (which lets the caller return Running)", rel.Truth)) {
+							handled = true
+						}
+					} else if !isC {
+						c.Undecided("O3", "prenode-helper-result@"+an.FnName(h), hr.Pos(), "the helper guarding return Running returns a computed boolean; not interpreted")
+						handled = true
+					}
+				})
+			}
+		}
+		if !handled {
+			c.Undecided("O3", "range(self.prenodes)@(*Node).getState", fn.Pos(), "no range over Node.prenodes found, neither in getState nor in a private helper guarding return Running")
+		}
 	}
 }
 
@@ -565,7 +636,7 @@ func ruleO4(c *an.Ctx) {
 		if fn == nil {
 			continue
 		}
-		got := callerNames(p, fn)
+		got := effectiveCallers(p, fn, []string{e.caller})
 		has := false
 		for _, g := range got {
 			if g == e.caller {
@@ -641,65 +712,104 @@ func ruleO5(c *an.Ctx) {
 		return
 	}
 	isPreflightLoad := func(v ssa.Value) bool { return an.LoadsField(v, preflight) }
-	// (a) every sub-node iteration either calls setPrenode or the sub-node is itself a preflight
-	sites := callsTo(newPS, setPre)
-	c.Floor("O5", "setPrenode calls in NewPipestance", len(sites), 1)
-	for _, s := range sites {
-		call := s.(*ssa.Call)
-		// receiver derives from a range over subnodes
-		var nxt *ssa.Next
-		an.Instrs(newPS, func(in ssa.Instruction) {
-			if n, ok := in.(*ssa.Next); ok {
-				if r, ok := n.Iter.(*ssa.Range); ok && an.LoadsField(r.X, subnodes) {
-					t := an.NewTaint(0, nil)
-					t.Add(n)
-					t.Run()
-					if t.Has(call.Call.Args[0]) {
-						nxt = n
-					}
-				}
-			}
-		})
-		if nxt == nil {
-			c.Fail("O5", "preflight-prenode(loop over all subnodes)@NewPipestance", call.Pos(), "setPrenode(preflight) is not applied inside a loop over all sub-nodes")
-			continue
-		}
-		w := an.Query{Fn: newPS, After: nxt,
-			Target:  func(in ssa.Instruction) bool { return in == ssa.Instruction(nxt) },
-			Barrier: func(in ssa.Instruction) bool { return in == ssa.Instruction(call) },
-			BarrierEdge: func(from, to *ssa.BasicBlock) bool {
-				cnd, t, ok := an.EdgeCond(from, to)
-				if !ok {
-					return false
-				}
-				if ex, isEx := cnd.(*ssa.Extract); isEx && ex.Tuple == ssa.Value(nxt) && ex.Index == 0 && !t {
-					return true // loop exit: not an iteration
-				}
-				r := an.Normalize(cnd, t)
-				return r.Op == token.ILLEGAL && r.Truth && isPreflightLoad(r.X)
-			}}.Find()
-		c.Check("O5", "preflight-prenode(every non-preflight subnode)@NewPipestance", call.Pos(), w == nil,
-			"every sub-node that is not itself a preflight must get the preflight node as prenode; "+c.WitnessString(w))
-		// the prenode argument comes from the collection of preflight stages: some append guarded by Preflight==true
-		okSrc := false
-		an.Instrs(newPS, func(in ssa.Instruction) {
+	// (a) every sub-node iteration either calls setPrenode or the sub-node is itself a preflight.
+	// The wiring loop may live in a private helper of NewPipestance.
+	// fromPreflightList: v derives, inside g, from an append guarded by Modifiers.Preflight == true
+	fromPreflightList := func(g *ssa.Function, v ssa.Value) bool {
+		found := false
+		an.Instrs(g, func(in ssa.Instruction) {
 			if cl, ok := in.(*ssa.Call); ok {
 				if _, isApp := an.IsBuiltinCall(cl, "append"); isApp {
-					g, _ := an.GuardedBy(cl, func(r an.Rel) bool { return r.Op == token.ILLEGAL && r.Truth && isPreflightLoad(r.X) })
-					if g {
+					gd, _ := an.GuardedBy(cl, func(r an.Rel) bool { return r.Op == token.ILLEGAL && r.Truth && isPreflightLoad(r.X) })
+					if gd {
 						t := an.NewTaint(0, nil)
 						t.Add(cl)
 						t.Run()
-						if len(call.Call.Args) > 1 && t.Has(call.Call.Args[1]) {
-							okSrc = true
+						if t.Has(v) {
+							found = true
 						}
 					}
 				}
 			}
 		})
-		c.Check("O5", "preflight-prenode(argument is a preflight stage)@NewPipestance", call.Pos(), okSrc,
-			"the prenode handed to setPrenode must come from the list of stages collected under Modifiers.Preflight")
+		return found
 	}
+	nSites := 0
+	for _, host := range familyOf(p, newPS, 2) {
+		host := host
+		if host == setPre {
+			continue // the recursion inside setPrenode is rule (b)
+		}
+		sites := callsTo(host, setPre)
+		nSites += len(sites)
+		for _, s := range sites {
+			call := s.(*ssa.Call)
+			// receiver derives from a range over subnodes
+			var nxt *ssa.Next
+			an.Instrs(host, func(in ssa.Instruction) {
+				if n, ok := in.(*ssa.Next); ok {
+					if r, ok := n.Iter.(*ssa.Range); ok && an.LoadsField(r.X, subnodes) {
+						t := an.NewTaint(0, nil)
+						t.Add(n)
+						t.Run()
+						if t.Has(call.Call.Args[0]) {
+							nxt = n
+						}
+					}
+				}
+			})
+			where := "@" + an.FnName(host)
+			if nxt == nil {
+				c.Fail("O5", "preflight-prenode(loop over all subnodes)"+where, call.Pos(), "setPrenode(preflight) is not applied inside a loop over all sub-nodes")
+				continue
+			}
+			w := an.Query{Fn: host, After: nxt,
+				Target:  func(in ssa.Instruction) bool { return in == ssa.Instruction(nxt) },
+				Barrier: func(in ssa.Instruction) bool { return in == ssa.Instruction(call) },
+				BarrierEdge: func(from, to *ssa.BasicBlock) bool {
+					cnd, t, ok := an.EdgeCond(from, to)
+					if !ok {
+						return false
+					}
+					if ex, isEx := cnd.(*ssa.Extract); isEx && ex.Tuple == ssa.Value(nxt) && ex.Index == 0 && !t {
+						return true // loop exit: not an iteration
+					}
+					r := an.Normalize(cnd, t)
+					return r.Op == token.ILLEGAL && r.Truth && isPreflightLoad(r.X)
+				}}.Find()
+			c.Check("O5", "preflight-prenode(every non-preflight subnode)"+where, call.Pos(), w == nil,
+				"every sub-node that is not itself a preflight must get the preflight node as prenode; "+c.WitnessString(w))
+			// the prenode argument comes from the collection of preflight stages: an append guarded by
+			// Preflight==true, in this function or - through a parameter - in its caller
+			okSrc := len(call.Call.Args) > 1 && fromPreflightList(host, call.Call.Args[1])
+			if !okSrc && len(call.Call.Args) > 1 {
+				sl := newSlice(host)
+				sl.add(call.Call.Args[1])
+				for v := range sl.seen {
+					// range element of a parameter: Next/Extract are not followed by the slice; look at ranges too
+					_ = v
+				}
+				for i, prm := range host.Params {
+					t := an.NewTaint(0, nil)
+					t.Add(prm)
+					t.Run()
+					if !t.Has(call.Call.Args[1]) {
+						continue
+					}
+					for caller, csites := range p.Callers(host) {
+						for _, cs := range csites {
+							if i < len(cs.Common().Args) && fromPreflightList(caller, cs.Common().Args[i]) {
+								okSrc = true
+							}
+						}
+					}
+				}
+			}
+			c.Check("O5", "preflight-prenode(argument is a preflight stage)"+where, call.Pos(), okSrc,
+				"the prenode handed to setPrenode must come from the list of stages collected under Modifiers.Preflight")
+		}
+	}
+	c.Floor("O5", "setPrenode calls in NewPipestance or its private helpers", nSites, 1)
 	// (b) setPrenode recurses into every sub-node and records the edge both ways
 	var nxt *ssa.Next
 	an.Instrs(setPre, func(in ssa.Instruction) {
@@ -801,7 +911,7 @@ func ruleO6(c *an.Ctx) {
 		}
 	}
 	sort.Strings(runtimeFallback)
-	c.Floor("O6", "functions of package core that test MergeExp.ForkNode against nil", len(runtimeFallback), 2)
+	c.Floor("O6", "functions of package core that test MergeExp.ForkNode against nil", len(runtimeFallback), 1)
 	// (a) FindRefs adds something derived from Call
 	frHandles := false
 	an.Instrs(fr, func(in ssa.Instruction) {
